@@ -209,6 +209,8 @@ func kindOf(sp *spec.Spec, t *spec.Type) string {
 
 func diffClass(d vtree.D) string {
 	switch {
+	case strings.HasSuffix(d.Path, ".$union"):
+		return "other-alternative" // a union arrived holding another alternative than the one sent
 	case d.Want == nil || valClass(d.Want) == "absent":
 		return "spurious"
 	case d.Got == nil:
